@@ -807,6 +807,18 @@ func writeEvidence(plan *Plan, agg *Agg, wall time.Duration, newViol int, knownS
 			samples = append(samples, v)
 		}
 	}
+	// a run in which (nearly) every case violated has few or no held samples: the violating cases are cases this run
+	// explored too, written out with what was observed
+	for i, v := range agg.Viols {
+		if len(samples) >= 3 || i >= 3 {
+			break
+		}
+		d := v.Detail
+		if len(d) > 600 {
+			d = d[:600] + "…"
+		}
+		samples = append(samples, map[string]any{"idx": v.Idx, "violated": v.Sig, "case": v.Case, "observed": d})
+	}
 	if len(samples) == 0 {
 		samples = append(samples, "no sample recorded")
 	}
